@@ -411,8 +411,15 @@ def unit_composites(ctx):
         C, kC, dC = abstract_kernel(mod, "KC", n1, it)
         obj = it.call(mod.ns["DiffTransform"], [C, M], {"std": std, "avg": avg})
         fq = FQ("DiffTransform", "k_and_deriv", "_transform", "_transform_bwd")
-        k, dk = it.call_method(obj, "k_and_deriv", [X.copy(), Y.copy()])
-        kc = it.call(obj, [X.copy(), Y.copy()], {})
+        Xa, Ya, Xb, Yb = X.copy(), Y.copy(), X.copy(), Y.copy()
+        k, dk = it.call_method(obj, "k_and_deriv", [Xa, Ya])
+        kc = it.call(obj, [Xb, Yb], {})
+        tag0 = "DiffTransform[std=%s,avg=%s]" % (use_std, use_avg)
+        # frame: the caller's sample arrays are not rescaled in place (a second evaluation on the same arrays sees the same inputs)
+        ctx.holds("%s k_and_deriv leaves X and Y unchanged" % tag0, same_elements(Xa, X) and same_elements(Ya, Y), "", fq, replay=replay_transform_frame(use_std, use_avg))
+        ctx.holds("%s __call__ leaves X and Y unchanged" % tag0, same_elements(Xb, X) and same_elements(Yb, Y), "", fq, replay=replay_transform_frame(use_std, use_avg))
+        dg = it.call_method(obj, "diag", [Xb])
+        ctx.holds("%s diag leaves X unchanged" % tag0, same_elements(Xb, X), "", fq)
 
         def tr(Z):
             out = np.empty((Z.shape[0], n1), dtype=object)
@@ -431,6 +438,19 @@ def unit_composites(ctx):
                     chain = tm.mk_add(*[dkk[i, j, q] * M[f, q] / (std[f] if use_std else 1) for q in range(n1)])
                     ctx.equal("%s chain rule dk[%d,%d,%d]" % (tag, i, j, f), hy, dk[i, j, f], chain, fq)
         ctx.canary("%s canary" % tag, hy, dk[0, 0, 0], 2 * tm.mk_add(*[dkk[0, 0, q] * M[0, q] / (std[0] if use_std else 1) for q in range(n1)]) + 1)
+
+
+def replay_transform_frame(use_std, use_avg):
+    def replay(wit):
+        import ciderpress.models.kernels as K
+        rng = np.random.RandomState(0)
+        X, Y = rng.rand(3, 2), rng.rand(4, 2)
+        kern = K.DiffTransform(K.DiffRBF(length_scale=[1.0, 1.0]), np.eye(2), std=np.array([2.0, 3.0]) if use_std else None, avg=np.array([0.1, 0.2]) if use_avg else None)
+        X0, Y0 = X.copy(), Y.copy()
+        kern(X, Y)
+        kern.k_and_deriv(X, Y)
+        return {"reproduced": bool(np.max(np.abs(X - X0)) > 0 or np.max(np.abs(Y - Y0)) > 0), "max_change_of_X": float(np.max(np.abs(X - X0)))}
+    return replay
 
 
 # ------------------------------------------------------------------ additive kernels, modular: k0 contract + abstract machinery
